@@ -262,7 +262,7 @@ PROPS["C02"] = {
     "title": "Every started hit yields exactly one result and the attack ends cleanly",
     "units": [{"name": "bubble", "pkg": "libsync", "go": "go1.26.8", "run": "^TestC02(Random|Exhaustive)"},
               {"name": "stoprace", "pkg": "lib", "run": "^TestC02StopRace", "shards_quick": 2, "shards_thorough": 8},
-              {"name": "pump", "pkg": "main", "run": "^TestC02", "shards_quick": 1, "shards_thorough": 4, "disabled": True}],
+              {"name": "pump", "pkg": "main", "run": "^TestC02", "shards_quick": 1, "shards_thorough": 4}],
     "rule": "Histories over the alphabet {tick, pacer-stop, complete(oldest/newest/any), consume, Stop by 1..8 callers, "
             "fail-next-target} are executed against the real Attacker inside a testing/synctest bubble with a gated "
             "pacer, recording targeter, blocking fake transport and the test as consumer; synctest.Wait() after every "
@@ -283,7 +283,7 @@ PROPS["C02"] = {
                   "against a sequential reference model; between two quiescent points the real goroutines interleave "
                   "freely (sampled, not enumerated)",
     "level_note": "needs go1.26.8 (testing/synctest); the fake transport and pacer are harness code; the CLI result "
-                  "pump (processAttack) is checked separately by the main-package unit",
+                  "pump (processAttack) is checked by the main-package unit with harness-owned channels",
     "assumptions": ["select between a ready tick send and a closed stop channel may go either way (both are accepted)"],
 }
 
